@@ -519,6 +519,14 @@ Definition compile_iso (p : prop) : iso_obs :=
       else mkObs VLinkErr (imps s) (opts s) (Some d)
   end.
 
+(* number of errors recorded by the visit (each through conversionVisitor.addError) *)
+Definition iso_nerr (p : prop) : nat :=
+  match visit_object p st0 with Ok (_, s) => nerr s | _ => 0 end.
+(* addError attaches node.GetPos() whenever it is non-nil, and sourcewalk's GetPos returns the address of a
+   composite literal: the three syntactic facts are regenerated from the Go source *)
+Definition errors_positioned : bool :=
+  SetExtGen.adderror_adds_position && SetExtGen.adderror_guard_is_nil_check && SetExtGen.getpos_returns_literal_address.
+
 (* ------------------------------------------------------------------ the documented language *)
 (* Written from README.md (field types, `!`/`?`, rules, inline types, array/map with a
    non-array/map item) and schema.proto (rule messages): every field type with a valid format,
